@@ -142,10 +142,14 @@ void bn_set_bit(bn_t a, uint_t bit, int value) {
 	bn_grow(a, d + 1);
 
 	if (value == 1) {
-		a->dp[d] |= ((dig_t)1 << bit);
 		if ((d + 1) > a->used) {
+			/* Digits beyond the current length are unspecified. */
+			for (int i = a->used; i <= d; i++) {
+				a->dp[i] = 0;
+			}
 			a->used = d + 1;
 		}
+		a->dp[d] |= ((dig_t)1 << bit);
 	} else {
 		a->dp[d] &= ~((dig_t)1 << bit);
 		bn_trim(a);
